@@ -14,6 +14,7 @@ import (
 	"math/rand"
 	"sort"
 	"strings"
+	"sync"
 	"time"
 
 	"ergo.services/ergo/act"
@@ -46,6 +47,31 @@ func (a *ifActor) Init(args ...any) error {
 	ctl := args[0].(*ifCtl)
 	ctl.entered <- a.PID()
 	return <-ctl.decide
+}
+
+// ifWrap: the node's target manager, with a look at the name table at the moment unregisterProcess / a failing
+// spawn drops the relations the process had requested (CleanupConsumer): that is after the exit / down messages about
+// its pid have been sent, so a name the process held must have been released by then (a supervisor restarts its
+// child under the same registered name as soon as it gets the exit message)
+type ifWrap struct {
+	gen.TargetManager
+	mu    sync.Mutex
+	nd    gen.Node
+	names []gen.Atom
+	late  []string
+}
+
+func (w *ifWrap) CleanupConsumer(pid gen.PID) ([]any, []any) {
+	w.mu.Lock()
+	if w.nd != nil {
+		for _, n := range w.names {
+			if owner, ok := node.VerifNameOwner(w.nd, n); ok && owner == pid {
+				w.late = append(w.late, fmt.Sprintf("the termination of %s has been announced to its links / monitors while its registered name %s is still bound to it (a restart under the same name is refused)", pid, n))
+			}
+		}
+	}
+	w.mu.Unlock()
+	return w.TargetManager.CleanupConsumer(pid)
 }
 
 type ifProc struct {
@@ -122,7 +148,8 @@ func ifScripted() []ifCase {
 
 func runInitFail(n int, out string, replay string) {
 	o := util.NewOut("rel.initfail")
-	opt := gen.NodeOptions{}
+	wrap := &ifWrap{TargetManager: gen.CreateDefaultTargetManager()}
+	opt := gen.NodeOptions{TargetManager: wrap}
 	opt.Log.DefaultLogger.Disable = true
 	opt.Network.Mode = gen.NetworkModeDisabled
 	nd, err := node.Start("verifinitfail@localhost", opt, gen.Version{})
@@ -130,6 +157,9 @@ func runInitFail(n int, out string, replay string) {
 		panic(err)
 	}
 	defer nd.StopForce()
+	wrap.mu.Lock()
+	wrap.nd = nd
+	wrap.mu.Unlock()
 	r := util.Rng(77)
 	var cases []ifCase
 	if replay != "" {
@@ -149,6 +179,10 @@ func runInitFail(n int, out string, replay string) {
 		for k := 1; k <= 3; k++ {
 			names[k] = gen.Atom(fmt.Sprintf("ifn%d_%d", ci, k))
 		}
+		wrap.mu.Lock()
+		wrap.names = []gen.Atom{names[1], names[2], names[3]}
+		wrap.late = nil
+		wrap.mu.Unlock()
 		var procs []*ifProc
 		mpid := func(i int) int { return 1000 + i } // model pid of the i-th spawn operation
 		byPid := func(pid gen.PID) int {
@@ -286,6 +320,9 @@ func runInitFail(n int, out string, replay string) {
 				}
 			}
 		}
+		wrap.mu.Lock()
+		fails = append(fails, wrap.late...)
+		wrap.mu.Unlock()
 		// clean up: let every held Init fail, kill the rest, free the names
 		for _, p := range procs {
 			switch p.state {
